@@ -634,12 +634,8 @@ public:
     // the sandbox's ABI, which may be smaller or larger than sizeof(T)
     // (a struct that has not been described to RLBox has no known image: it
     // can only be handed around, and is sized as the application sees it)
-    using T_Base = std::remove_cv_t<std::remove_all_extents_t<T>>;
-    constexpr bool image_is_known =
-      !std::is_class_v<T_Base> || detail::has_sandbox_equivalent_v<T_Base, T_Sbx>;
-    using T_SbxImage =
-      std::conditional_t<image_is_known, tainted_volatile<T, T_Sbx>, T>;
-    auto total_size = static_cast<uint64_t>(sizeof(T_SbxImage)) * count;
+    constexpr size_t image_size = detail::sandbox_image_size<T, T_Sbx>::value;
+    auto total_size = static_cast<uint64_t>(image_size) * count;
     if constexpr (sizeof(size_t) == 4) {
       // On a 32-bit platform, we need to make sure that total_size is not >=4GB
       detail::dynamic_check(total_size < std::numeric_limits<uint32_t>::max(),
@@ -660,7 +656,7 @@ public:
     detail::dynamic_check(is_pointer_in_sandbox_memory(ptr),
                           "Malloc returned pointer outside the sandbox memory");
     auto ptr_end = reinterpret_cast<uintptr_t>(ptr) +
-                   static_cast<uintptr_t>(sizeof(T_SbxImage)) * (count - 1);
+                   static_cast<uintptr_t>(image_size) * (count - 1);
     detail::dynamic_check(
       is_in_same_sandbox(ptr, reinterpret_cast<void*>(ptr_end)),
       "Malloc returned a pointer whose range goes beyond sandbox memory");
